@@ -116,6 +116,9 @@ def check_vdw(case, ctx):
 
     V = eos.get_V(T=T, P=P, n=n, gas_phase=gas)
     Vm = V / n
+    Vd = eos.get_V(T=T, P=P, n=1., gas_phase=gas)
+    ctx.close('C20.vdw/defaults:n', [eos.get_P(T=T, V=Vd), eos.get_T(V=Vd, P=P)],
+              [eos.get_P(T=T, V=Vd, n=1.), eos.get_T(V=Vd, P=P, n=1.)], rtol=1e-13)
     # documented defaults: one mole, the gas-like root
     ctx.close('C20.vdw/defaults', [eos.get_V(T=T, P=P, gas_phase=gas), eos.get_V(T=T, P=P, n=n), eos.get_Vm(T=T, P=P)],
               [eos.get_V(T=T, P=P, n=1., gas_phase=gas), eos.get_V(T=T, P=P, n=n, gas_phase=True),
